@@ -95,6 +95,12 @@ func c161(c *an.Ctx, p *an.Prog) {
 		if !okErr {
 			badExt = append(badExt, "iteration "+s.BlockPath()+" continues although checkUserFile's error is not known to be nil")
 		}
+		// an entry whose name fails the grammar is ignored (it counts neither as user nor as admin, C03.3)
+		for _, a := range s.Atoms {
+			if cc, i := a.A.CallOf(); a.Op == "false" && cc != nil && cc.K == cuf.K && i == 0 {
+				return
+			}
+		}
 		// duplicate test: fileExists(<dir>/<user> + opposite ext) == false
 		isAdminTrue, isAdminKnown := false, false
 		for _, a := range s.Atoms {
